@@ -145,6 +145,11 @@ theorem bonds_frame (t : Topo) (e : Edit) (h : WF t) (o s : Bond) (hb : (o, s) â
       simp only [List.mem_filter, decide_eq_true_eq]
       exact âŸ¨hb, fun e => hne (by rw [hs, e])âŸ©
 
+/-- The executable check `wfB`, which the driver evaluates on every state dumped by the real
+    implementation, decides exactly the well-formedness predicate of the theorems above; and
+    `sameSet (bonds g') (specBonds g e)` is the Boolean form of `bonds_step`'s conclusion. -/
+theorem wfB_decides_WF (t : Topo) : wfB t = true â†” WF t := wfB_iff t
+
 /-- The command line layer only composes API edits (`applyCli t e = run t (expandCli t e)` by
     definition), so every machine reachable through any sequence of CLI invocations is well formed. -/
 theorem wf_cli (t : Topo) (e : CliEdit) (h : WF t) : WF (applyCli t e) := by
